@@ -191,6 +191,9 @@ func classifySeq(got, want []uint64) string {
 }
 
 func c10custom(rep *vh.Report, seed uint64, idx int) {
+	if aborted() {
+		return
+	}
 	r := vh.Sub(seed, fmt.Sprintf("c10-custom-%d", idx))
 	k := 1 + r.Intn(8)
 	withKey := r.Chance(1, 3)
@@ -401,6 +404,9 @@ func head(u []uint64) []string {
 
 // c10net: TCP and UDP server endpoints fed by real loopback peers; every connection is its own channel.
 func c10net(rep *vh.Report, seed uint64, idx int) {
+	if aborted() {
+		return
+	}
 	r := vh.Sub(seed, fmt.Sprintf("c10-net-%d", idx))
 	hookReset(r.U64(), true, true)
 	tport, uport := freeTCPPort(), freeUDPPort()
@@ -541,7 +547,9 @@ func c10net(rep *vh.Report, seed uint64, idx int) {
 		}
 		return n >= total && closedOK
 	}, c.nEvents, 1500*time.Millisecond)
-	node.Close()
+	if !safeClose(rep, node) {
+		return
+	}
 	select {
 	case <-c.done:
 	case <-time.After(10 * time.Second):
@@ -630,6 +638,9 @@ func TestC10(t *testing.T) {
 // c10serial: a serial endpoint through the fake opener; every port is a fresh transport whose read side fails
 // persistently, at an item boundary or in the middle of a frame; the endpoint re-opens after the reconnect delay.
 func c10serial(rep *vh.Report, seed uint64, idx int) {
+	if aborted() {
+		return
+	}
 	r := vh.Sub(seed, fmt.Sprintf("c10-serial-%d", idx))
 	hookReset(r.U64(), true, true)
 	prev := gomavlib.VerifSetReconnectPeriod(10 * time.Millisecond)
@@ -700,7 +711,9 @@ func c10serial(rep *vh.Report, seed uint64, idx int) {
 	for _, ci := range chans {
 		snaps = append(snaps, c.snapshot(ci))
 	}
-	node.Close()
+	if !safeClose(rep, node) {
+		return
+	}
 	select {
 	case <-c.done:
 	case <-time.After(10 * time.Second):
